@@ -211,7 +211,11 @@ where
     });
 
     // Channel to collect results from all attempts
-    let (tx, mut rx) = mpsc::channel::<(usize, Result<S::Response, S::Error>)>(max_attempts);
+    // (a bounded channel cannot be larger than tokio's semaphore and panics when asked to be;
+    // senders wait for room, so a smaller channel only delays them)
+    let (tx, mut rx) = mpsc::channel::<(usize, Result<S::Response, S::Error>)>(
+        max_attempts.min(tokio::sync::Semaphore::MAX_PERMITS),
+    );
 
     // Spawn primary request on the instance the caller saw ready; hedges get clones,
     // which have to become ready themselves before they are called
